@@ -3,7 +3,7 @@
 //! Note that some array operations also operate on strings as arrays
 //! of characters.
 
-use serde_json::{Map, Value};
+use serde_json::{Map, Number, Value};
 
 use crate::error::Error;
 use crate::op::logic;
@@ -355,6 +355,35 @@ pub fn merge(items: &Vec<&Value>) -> Result<Value, Error> {
     )))
 }
 
+/// Deep equality in which numbers are compared by value rather than by
+/// their JSON representation, so that 1, 1.0 and 1e0 are the same element.
+fn values_equal(first: &Value, second: &Value) -> bool {
+    match (first, second) {
+        (Value::Number(x), Value::Number(y)) => {
+            let is_int = |n: &Number| n.is_i64() || n.is_u64();
+            if is_int(x) && is_int(y) {
+                // exact: doubles cannot tell large integers apart
+                x.as_i64() == y.as_i64() && x.as_u64() == y.as_u64()
+            } else {
+                match (x.as_f64(), y.as_f64()) {
+                    (Some(x_val), Some(y_val)) => x_val == y_val,
+                    _ => false,
+                }
+            }
+        }
+        (Value::Array(x), Value::Array(y)) => {
+            x.len() == y.len() && x.iter().zip(y).all(|(a, b)| values_equal(a, b))
+        }
+        (Value::Object(x), Value::Object(y)) => {
+            x.len() == y.len()
+                && x.iter().all(|(key, a)| {
+                    y.get(key).map(|b| values_equal(a, b)).unwrap_or(false)
+                })
+        }
+        _ => first == second,
+    }
+}
+
 /// Perform containment checks with "in"
 // TODO: make this a lazy operator, since we don't need to parse things
 // later on in the list if we find something that matches early.
@@ -371,7 +400,9 @@ pub fn in_(items: &Vec<&Value>) -> Result<Value, Error> {
         // implementation is relying on broken, undefined behavior, it seems
         // okay to update that behavior to work in a more intuitive way.
         Value::Null => Ok(Value::Bool(false)),
-        Value::Array(possibles) => Ok(Value::Bool(possibles.contains(needle))),
+        Value::Array(possibles) => Ok(Value::Bool(
+            possibles.iter().any(|item| values_equal(item, needle)),
+        )),
         Value::String(haystack_string) => {
             // Note: the reference implementation uses the regular old
             // String.prototype.indexOf() function to check for containment,
